@@ -150,16 +150,20 @@ Definition srow := (Z * (Z * Z * Z))%type.
 Definition skip_now (d maxd : Z) : bool := (d <? 0) || (d >=? maxd).
 Definition skip_v0 (d maxd : Z) : bool := d >? maxd.       (* before the fix: commit 066359c *)
 
-Definition sp_body (skip : Z -> Z -> bool) (maxd : Z) (sym : bool) (x0 x1 : Z * Z * Z)
-  : list (Z * Z * Z) :=
+(* [sub] is the subtraction of the table's dtype: exact once the table is cast to int64 (commit
+   dc1e643); before that cast a uint8 table subtracted modulo 256 *)
+Definition sub_u8 (a b : Z) : Z := (a - b) mod 256.
+
+Definition sp_body (sub : Z -> Z -> Z) (skip : Z -> Z -> bool) (maxd : Z) (sym : bool)
+  (x0 x1 : Z * Z * Z) : list (Z * Z * Z) :=
   let '(idx0, start0, end0) := x0 in
   let '(idx1, start1, end1) := x1 in
   if start0 <? start1 then
-    let d := start1 - end0 in
+    let d := sub start1 end0 in
     if skip d maxd then []
     else (idx0, idx1, d) :: (if sym && negb (idx0 =? idx1) then [(idx1, idx0, d)] else [])
   else
-    let d := start0 - end1 in
+    let d := sub start0 end1 in
     if skip d maxd then []
     else (idx1, idx0, d) :: (if sym && negb (idx0 =? idx1) then [(idx0, idx1, d)] else []).
 
@@ -173,7 +177,7 @@ Definition off3 (na nb nd : nat) (ev : Z * Z * Z) : res nat :=
 Definition srow_nonneg (r : srow) : bool :=
   let '(e, (a, s, en)) := r in (0 <=? e) && (0 <=? a) && (0 <=? s) && (0 <=? en).
 
-Definition spacing_gen (skip : Z -> Z -> bool) (X : list srow) (maxd : Z) (sym : bool)
+Definition spacing_gen (sub : Z -> Z -> Z) (skip : Z -> Z -> bool) (X : list srow) (maxd : Z) (sym : bool)
   (shape : option Z) : res tens :=
   ensure nonempty X ;;
   ensure forallb srow_nonneg X ;;                (* _validate_input(min_value=0) *)
@@ -186,12 +190,14 @@ Definition spacing_gen (skip : Z -> Z -> bool) (X : list srow) (maxd : Z) (sym :
   ensure (0 <=? maxd) ;;                       (* torch.zeros(n, n, max_distance) *)
   let n := Z.to_nat nA in
   let m := Z.to_nat maxd in
-  let evs := flat_map (pair_events (sp_body skip maxd sym)) (buckets (Z.to_nat nE) X) in
+  let evs := flat_map (pair_events (sp_body sub skip maxd sym)) (buckets (Z.to_nat nE) X) in
   do offs <- mapM (off3 n n m) evs ;;
   Ok (T3 (reshape3 n n m (accum Z.add (repeat 0 (n * n * m)%nat) (map (fun o => (o, 1)) offs)))).
 
-Definition pairwise_annotations_spacing := spacing_gen skip_now.
-Definition pairwise_annotations_spacing_v0 := spacing_gen skip_v0.
+Definition pairwise_annotations_spacing := spacing_gen Z.sub skip_now.
+Definition pairwise_annotations_spacing_v0 := spacing_gen Z.sub skip_v0.
+(* a uint8 table between commits 066359c and dc1e643 (for max_distance <= 255) *)
+Definition pairwise_annotations_spacing_u8 := spacing_gen sub_u8 skip_now.
 
 (* ---------- kmers ---------- *)
 
